@@ -246,6 +246,16 @@ Definition exec_guard (c : config) (n : native) : exec_outcome :=
   else if nmem n spawning_natives then Spawned
   else NoSpawn.
 
+(* ---------------------------------------------------------------- fs / net natives *)
+(* every native of a gated module starts with require_fs / require_net (Extracted.percall_guarded):
+   the capability is tested when the native is CALLED, not only when the module is registered *)
+Inductive call_outcome := CallAllowed | CallDenied.
+Definition call_guard (c : config) (n : native) : call_outcome :=
+  match sassoc (fst n) gated_arms with
+  | Some bit => if nmem n percall_guarded then (if cap_bit c bit then CallAllowed else CallDenied) else CallAllowed
+  | None => CallAllowed
+  end.
+
 (* ---------------------------------------------------------------- native modules *)
 Definition check_native_capability (c : config) (cap : string) : bool :=
   if smem cap (denied c) then false
@@ -314,7 +324,16 @@ Section NativePolicy.
   (* which manifest a run route consults *)
   Inductive route := RSource | RAvbc | RAasm.
   Definition manifest := list (string * policy).
+  (* source: Manifest::for_source_file(entry); assembly: the same lookup next to the .aasm file;
+     bytecode: the embedded manifest, else the same lookup next to the .avbc file *)
   Definition manifest_for (r : route) (project embedded : option manifest) : option manifest :=
+    match r with
+    | RSource => project
+    | RAvbc => match embedded with Some m => Some m | None => project end
+    | RAasm => project
+    end.
+  (* BEFORE the repair of KF-C11-2: assembly passed no manifest, bytecode only an embedded one *)
+  Definition manifest_for_before_fix (r : route) (project embedded : option manifest) : option manifest :=
     match r with RSource => project | RAvbc => embedded | RAasm => None end.
   (* policy looked up by the last path segment *)
   Definition module_policy (m : manifest) (path : list string) : option policy := sassoc (last path "") m.
@@ -322,6 +341,10 @@ Section NativePolicy.
              (path : list string) (f : nfile) : list event :=
     native_module_decision c
       (match manifest_for r project embedded with Some m => module_policy m path | None => None end) f.
+  Definition route_decision_before_fix (r : route) (c : config) (project embedded : option manifest)
+             (path : list string) (f : nfile) : list event :=
+    native_module_decision c
+      (match manifest_for_before_fix r project embedded with Some m => module_policy m path | None => None end) f.
 End NativePolicy.
 
 Arguments p_caps {vreq} _.
